@@ -277,11 +277,14 @@ pub struct NodeRrsets {
 impl NodeRrsets {
     /// Returns whether there are no RRsets for the given version.
     pub fn is_empty(&self, version: Version) -> bool {
+        // One guard for both looks: asking for the lock a second time
+        // while the first guard is held deadlocks as soon as a writer has
+        // queued up in between.
         let rrsets = self.rrsets.read();
         if rrsets.is_empty() {
             return true;
         }
-        for value in self.rrsets.read().values() {
+        for value in rrsets.values() {
             if value.get(version).is_some() {
                 return false;
             }
